@@ -55,147 +55,143 @@ class Effects:
         self._taint: dict = {}
         self._parents: dict = {}
         self._callers = None
+        self._feas: dict = {}
+        self.ignore_callees: set = set()   # callee names whose effects a rule accounts for separately (pairs, reviewed)
 
     # ------------------------------------------------------------------------------------------------------------------
     # derivation: which variables denote (part of) the tree of which parameter -- flow-insensitive
-    def derived(self, fi: FuncInfo) -> dict[str, set[str]]:
-        """{variable name: set of parameter names it may be derived from}"""
-        if fi.key in self._derived_cache:
-            return self._derived_cache[fi.key]
+    def derived(self, fi: FuncInfo, feasible=None):
+        """({variable: params it may *alias* (part of their tree)}, {variable: params whose tree its *elements* belong to}).
+        A slice / list() / display is a fresh container: mutating the container is not a mutation of the tree, but its elements
+        still are tree nodes.  `feasible` (set of id(stmt) / id(expr) roots of feasible CFG nodes) restricts the assignments
+        considered to those reachable in a given specialisation (e.g. `if stack is None: stack = [self.a]` pruned)."""
+        ck = (fi.key, None if feasible is None else hash(frozenset(feasible)))
+        if ck in self._derived_cache:
+            return self._derived_cache[ck]
         fn = fi.node
         d: dict[str, set[str]] = {p: {p} for p in fi.params()}
+        de: dict[str, set[str]] = {p: {p} for p in fi.params()}
 
-        def roots(e) -> set[str]:
+        def roots(e, mode='alias') -> set[str]:
             if isinstance(e, ast.Name):
-                return set(d.get(e.id, ()))
+                return set((de if mode == 'elem' else d).get(e.id, ()))
             if isinstance(e, ast.Attribute):
-                return roots(e.value)
+                return roots(e.value, 'alias')
             if isinstance(e, ast.Subscript):
-                return roots(e.value)
+                if isinstance(e.slice, ast.Slice):
+                    return roots(e.value, 'elem') if mode == 'elem' else set()
+                return roots(e.value, 'elem')
             if isinstance(e, ast.Starred):
-                return roots(e.value)
+                return roots(e.value, mode)
             if isinstance(e, ast.NamedExpr):
-                return roots(e.value)
+                return roots(e.value, mode)
             if isinstance(e, ast.IfExp):
-                return roots(e.body) | roots(e.orelse)
+                return roots(e.body, mode) | roots(e.orelse, mode)
             if isinstance(e, ast.BoolOp):
                 out = set()
                 for v in e.values:
-                    out |= roots(v)
+                    out |= roots(v, mode)
                 return out
+            if isinstance(e, ast.BinOp) and isinstance(e.op, ast.Add):
+                return (roots(e.left, 'elem') | roots(e.right, 'elem')) if mode == 'elem' else set()
             if isinstance(e, ast.Call):
                 cn = call_name(e)
                 if cn in NEW_TREE_CALLS or (cn or '').startswith('code_as') or (cn or '').startswith('_code_'):
                     return set()
                 if isinstance(e.func, ast.Attribute) and cn in NAV_METHODS:
-                    return roots(e.func.value)
+                    return roots(e.func.value, 'alias')
                 if cn in ('getattr',) and e.args:
-                    return roots(e.args[0])
+                    return roots(e.args[0], 'alias')
                 if cn in ('reversed', 'list', 'tuple', 'iter', 'enumerate', 'zip', 'sorted') and e.args:
+                    if mode != 'elem':
+                        return set()
                     out = set()
                     for a in e.args:
-                        out |= roots(a)
+                        out |= roots(a, 'elem')
                     return out
                 return set()
-            if isinstance(e, (ast.Tuple, ast.List)):
+            if isinstance(e, (ast.Tuple, ast.List, ast.Set)):
+                if mode != 'elem':
+                    return set()
                 out = set()
                 for x in e.elts:
-                    out |= roots(x)
+                    out |= roots(x, 'alias') | roots(x, 'elem') if isinstance(x, ast.Starred) else roots(x, 'alias')
                 return out
+            if isinstance(e, (ast.ListComp, ast.GeneratorExp, ast.SetComp)):
+                return roots(e.elt, 'alias') if mode == 'elem' else set()
             return set()
-        self._roots_fn = roots
+
+        def stmts():
+            for n in walk_no_nested(fn):
+                yield n
+        skip_ids = None
+        if feasible is not None:
+            skip_ids = feasible
         changed = True
         n_it = 0
         while changed and n_it < 12:
             n_it += 1
             changed = False
             for n in walk_no_nested(fn):
-                pairs = []
+                if skip_ids is not None and isinstance(n, ast.stmt) and id(n) not in skip_ids and not isinstance(n, (ast.If, ast.For, ast.While, ast.With, ast.Try, ast.Match)):
+                    continue
+                pairs = []    # (target, value, elementwise?)
                 if isinstance(n, ast.Assign):
                     for t in n.targets:
-                        pairs.append((t, n.value))
+                        pairs.append((t, n.value, False))
                 elif isinstance(n, ast.AnnAssign) and n.value is not None:
-                    pairs.append((n.target, n.value))
+                    pairs.append((n.target, n.value, False))
                 elif isinstance(n, ast.NamedExpr):
-                    pairs.append((n.target, n.value))
+                    pairs.append((n.target, n.value, False))
                 elif isinstance(n, (ast.For, ast.AsyncFor)):
-                    pairs.append((n.target, n.iter))
+                    pairs.append((n.target, n.iter, True))
                 elif isinstance(n, ast.comprehension):
-                    pairs.append((n.target, n.iter))
+                    pairs.append((n.target, n.iter, True))
                 elif isinstance(n, (ast.With, ast.AsyncWith)):
                     for it in n.items:
                         if it.optional_vars is not None:
-                            pairs.append((it.optional_vars, it.context_expr))
-                for t, v in pairs:
-                    if isinstance(t, (ast.Tuple, ast.List)) and isinstance(v, (ast.Tuple, ast.List)) and len(t.elts) == len(v.elts):
-                        sub = list(zip(t.elts, v.elts))
+                            pairs.append((it.optional_vars, it.context_expr, False))
+                for t, v, elementwise in pairs:
+                    if isinstance(t, (ast.Tuple, ast.List)) and isinstance(v, (ast.Tuple, ast.List)) and len(t.elts) == len(v.elts) and not elementwise:
+                        sub = [(tt, vv, False) for tt, vv in zip(t.elts, v.elts)]
+                    elif isinstance(t, (ast.Tuple, ast.List)) and not elementwise:
+                        sub = [(tt, v, True) for tt in t.elts]      # unpacking: each target is an element of the value
                     else:
-                        sub = [(t, v)]
-                    for tt, vv in sub:
-                        r = roots(vv)
-                        if not r:
-                            continue
+                        sub = [(t, v, elementwise)]
+                    for tt, vv, ew in sub:
+                        ra = roots(vv, 'elem') if ew else roots(vv, 'alias')
+                        re_ = roots(vv, 'elem')
                         for x in ast.walk(tt):
                             if isinstance(x, ast.Name) and isinstance(x.ctx, ast.Store):
                                 old = d.get(x.id, set())
-                                if not r <= old:
-                                    d[x.id] = old | r
+                                if not ra <= old:
+                                    d[x.id] = old | ra
                                     changed = True
-        # local containers built by a display / comprehension / copying call: mutating the container itself (append, item
-        # store) does not touch the tree its elements belong to
-        fresh, not_fresh = set(), set()
-        for n in walk_no_nested(fn):
-            pairs = []
-            if isinstance(n, ast.Assign):
-                pairs = [(t, n.value) for t in n.targets]
-            elif isinstance(n, ast.AnnAssign) and n.value is not None:
-                pairs = [(n.target, n.value)]
-            elif isinstance(n, ast.NamedExpr):
-                pairs = [(n.target, n.value)]
-            elif isinstance(n, ast.AugAssign):
-                pairs = [(n.target, None)]
-            for t, v in pairs:
-                if isinstance(t, ast.Name):
-                    if isinstance(v, (ast.List, ast.Tuple, ast.Dict, ast.Set, ast.ListComp, ast.SetComp, ast.DictComp)) or \
-                            (isinstance(v, ast.Call) and call_name(v) in ('list', 'dict', 'set', 'sorted', 'reversed', 'copy', 'tuple')) or \
-                            (isinstance(v, ast.Subscript) and isinstance(v.slice, ast.Slice)) or \
-                            (isinstance(v, ast.BinOp) and isinstance(v.op, (ast.Add, ast.Mult))):
-                        fresh.add(t.id)
-                    else:
-                        not_fresh.add(t.id)
-        self._fresh[fi.key] = (fresh - not_fresh) - set(fi.params())
-        self._derived_cache[fi.key] = d
-        return d
+                                olde = de.get(x.id, set())
+                                new_e = re_ | ra
+                                if not new_e <= olde:
+                                    de[x.id] = olde | new_e
+                                    changed = True
+        res = (d, de, roots)
+        self._derived_cache[ck] = res
+        return res
 
-    def expr_roots(self, fi: FuncInfo, e) -> set[str]:
-        d = self.derived(fi)
-
-        def roots(e):
-            if isinstance(e, ast.Name):
-                return set(d.get(e.id, ()))
-            if isinstance(e, (ast.Attribute, ast.Subscript, ast.Starred)):
-                return roots(e.value)
-            if isinstance(e, ast.NamedExpr):
-                return roots(e.value)
-            if isinstance(e, ast.Call):
-                cn = call_name(e)
-                if cn in NEW_TREE_CALLS or (cn or '').startswith('code_as') or (cn or '').startswith('_code_'):
-                    return set()
-                if isinstance(e.func, ast.Attribute) and cn in NAV_METHODS:
-                    return roots(e.func.value)
-                return set()
-            if isinstance(e, ast.IfExp):
-                return roots(e.body) | roots(e.orelse)
-            return set()
-        return roots(e)
+    def expr_roots(self, fi: FuncInfo, e, feasible=None) -> set[str]:
+        return self.derived(fi, feasible)[2](e, 'alias')
 
     # ------------------------------------------------------------------------------------------------------------------
-    def direct_mutations(self, fi: FuncInfo):
+    def direct_mutations(self, fi: FuncInfo, feasible=None):
         """Yield (node, roots) for statements / calls that directly modify tree state: AST field / position / child-list
         stores, source line stores, FST link stores."""
         fn = fi.node
-        self.derived(fi)
-        fresh = self._fresh.get(fi.key, set())
+        fresh = set()
+        _er = self.expr_roots
+        if feasible is not None:
+            def expr_roots(fi_, e):
+                return _er(fi_, e, feasible)
+            self_expr_roots = expr_roots
+        else:
+            self_expr_roots = _er
         for n in walk_no_nested(fn):
             tgs = []
             if isinstance(n, ast.Assign):
@@ -214,7 +210,7 @@ class Effects:
                             continue      # field of a helper object (view, context manager, editor), not of a tree node
                         if isinstance(tt, ast.Subscript) and isinstance(tt.value, ast.Name) and tt.value.id in fresh:
                             continue      # item store into a locally built container
-                        r = self.expr_roots(fi, tt.value)
+                        r = self_expr_roots(fi, tt.value)
                         if r:
                             yield n, r
             if isinstance(n, ast.Call) and isinstance(n.func, ast.Attribute) and n.func.attr in LIST_MUTATORS:
@@ -222,11 +218,11 @@ class Effects:
                     continue
                 if isinstance(n.func.value, ast.Name) and n.func.value.id in fresh:
                     continue
-                r = self.expr_roots(fi, n.func.value)
+                r = self_expr_roots(fi, n.func.value)
                 if r and not isinstance(n.func.value, ast.Call):
                     yield n, r
             if isinstance(n, ast.Call) and call_name(n) == 'setattr' and n.args:
-                r = self.expr_roots(fi, n.args[0])
+                r = self_expr_roots(fi, n.args[0])
                 if r:
                     yield n, r
 
@@ -304,7 +300,7 @@ class Effects:
         cfg = self.cfg(fi)
         fl = self.flow(fi, consts)
         out = set()
-        dm = self._dm(fi)
+        dm, feas = self._dm_spec(fi, consts)
         ce = self._ce(fi)
         for node in cfg.nodes:
             disj = fl.all_facts(node.id)
@@ -315,12 +311,14 @@ class Effects:
                     out |= dm[id(x)]
                 if isinstance(x, ast.Call) and id(x) in ce:
                     for cal, binding in ce[id(x)]:
+                        if cal.name in self.ignore_callees:
+                            continue
                         for cc in self.call_consts_all(cal, binding, disj):
                             cm = self.mutated_params(cal, cc, _stack + (key,))
                             for q in cm:
                                 a = binding.get(q)
                                 if a is not None:
-                                    out |= self.expr_roots(fi, a)
+                                    out |= self.expr_roots(fi, a, feas)
         self._mut_spec[key] = out
         return out
 
@@ -396,6 +394,35 @@ class Effects:
             c = self._cfgs[fi.key] = CFG(fi.node)
         return c
 
+    def feasible_ids(self, fi: FuncInfo, consts: dict):
+        """ids of the simple statements that can execute in the specialisation `consts` (None if nothing is pruned)."""
+        key = (fi.key, _ckey(consts))
+        r = self._feas.get(key, 0)
+        if r != 0:
+            return r
+        cfg = self.cfg(fi)
+        fl = self.flow(fi, consts)
+        dead = [n for n in cfg.nodes if n.kind == 'stmt' and not fl.feasible(n.id)]
+        if not dead:
+            r = None
+        else:
+            r = frozenset(id(n.ast) for n in cfg.nodes if n.kind == 'stmt' and fl.feasible(n.id))
+        self._feas[key] = r
+        return r
+
+    def _dm_spec(self, fi, consts):
+        feas = self.feasible_ids(fi, consts)
+        if feas is None:
+            return self._dm(fi), None
+        key = (fi.key, _ckey(consts))
+        d = self._dm_cache.get(key)
+        if d is None:
+            d = {}
+            for n, r in self.direct_mutations(fi, feas):
+                d.setdefault(id(n), set()).update(r)
+            self._dm_cache[key] = d
+        return d, feas
+
     def _dm(self, fi):
         d = self._dm_cache.get(fi.key)
         if d is None:
@@ -414,26 +441,27 @@ class Effects:
             self._ce_cache[fi.key] = d
         return d
 
-    def node_mutates(self, fi: FuncInfo, cfg: CFG, node, param: str, facts: dict | None = None, ignore=frozenset()) -> list:
+    def node_mutates(self, fi: FuncInfo, cfg: CFG, node, param: str, facts: dict | None = None, ignore=frozenset(),
+                     consts: dict | None = None) -> list:
         """AST constructs evaluated at CFG node `node` that mutate the tree of `param` (callees specialised by the abstract
         values of their arguments under `facts`)."""
         self.compute_mutations()
         hits = []
-        dm = self._dm(fi)
+        dm, feas = self._dm_spec(fi, consts or {}) if consts else (self._dm(fi), None)
         ce = self._ce(fi)
         for x in subnodes(cfg, node):
             if id(x) in dm and param in dm[id(x)]:
                 hits.append(x)
             if isinstance(x, ast.Call) and id(x) in ce:
                 for cal, binding in ce[id(x)]:
-                    if cal.name in ignore:
+                    if cal.name in ignore or cal.name in self.ignore_callees:
                         continue
                     done = False
                     disj = facts if isinstance(facts, list) else [facts or {}]
                     for cc in self.call_consts_all(cal, binding, disj):
                         for q in self.mutated_params(cal, cc):
                             a = binding.get(q)
-                            if a is not None and param in self.expr_roots(fi, a):
+                            if a is not None and param in self.expr_roots(fi, a, feas):
                                 hits.append(x)
                                 done = True
                                 break
